@@ -134,10 +134,10 @@ class TabularMarkovDecisionProcess(MarkovDecisionProcess):
         except AttributeError:
             pass
         logger.info("Action space unspecified; performing reachability analysis.")
-        actions = set([])
+        actions = {} #insertion-ordered, so the order does not depend on hashing
         for s in self.state_list:
             for a in self._cached_actions(s):
-                actions.add(a)
+                actions[a] = None
         try:
             return domaintuple(sorted(actions))
         except TypeError: #unsortable action representation
